@@ -332,14 +332,14 @@ def _validation(model: Model, V: RuleResult):
                 t = ast.unparse(i.test)
                 if "isinstance" in t and "int" in t and "float" in t and t.startswith("not "):
                     cand = i
-            elif kind == "hermit":
-                t = ast.unparse(i.test)
-                if "allclose" in t and "transpose(-2, -1).conj()" in t and t.startswith("not "):
-                    # it must be on the branch `is_hermitian` truthy
-                    from ..rules.solverloop import enclosing_ifs
-                    enc = enclosing_ifs(i, f.node)
-                    if any(ast.unparse(e.test) == "is_hermitian" and inbody for e, inbody in enc):
-                        cand = i
+        if kind == "hermit":
+            # a raise that happens exactly when the caller says hermitian and the matrix is not equal to its adjoint - whatever the nesting
+            from ..model import effective_conditions, cond_atoms
+            for r in own_nodes(f.node):
+                if isinstance(r, ast.Raise) and r.exc is not None and ast.unparse(r.exc).startswith(exc + "("):
+                    at = cond_atoms(effective_conditions(r))
+                    if ("is_hermitian", True) in at and any(not pol and "allclose" in t and "transpose(-2, -1).conj()" in t for t, pol in at):
+                        cand = next((a for a in ancestors(r) if isinstance(a, ast.If)), None)
         what = "%s: %s check raising %s" % (qual, kind if expected is None else "%s != %s" % expected, exc)
         if cand is None:
             V.bad(f, f.node, "validation vanished: %s" % what, what=what)
